@@ -953,8 +953,13 @@ func genC07(tier string, seed uint64, emit func(string)) {
 		floodMiB = 64
 	}
 	for _, pat := range []string{"\r\n", "\n", "\r", " ", "\x00", "\r\n\r\n \t", "*0\r\n", "*-1\r\n", "$-1\r\n"} {
-		emit(fmt.Sprintf("flood07 - %s %d", hx([]byte(pat)), floodMiB))
-		emit(fmt.Sprintf("flood07 %s %s %d", hx(reqS("PING")), hx([]byte(pat)), floodMiB))
+		mib := floodMiB
+		if pat[0] == '*' || pat[0] == '$' {
+			// complete values: every one of them is a request that is answered, so the size is what bounds the time
+			mib = 2
+		}
+		emit(fmt.Sprintf("flood07 - %s %d", hx([]byte(pat)), mib))
+		emit(fmt.Sprintf("flood07 %s %s %d", hx(reqS("PING")), hx([]byte(pat)), mib))
 	}
 	// a request that crashes inside the framework (a handler answering nil, nil to a composed command) ends its own
 	// connection only: connections opened before and after it are served
